@@ -404,7 +404,9 @@ def search_failing_input(ctx, broken):
                       {"broken": broken, "search_output": out[-2000:]}, found_input=False)
 
 
-STORED_LITERALS = [r'a\0b', r'a\x00b', r'\0zz', r'k\x00\x01\xfe7', r'ab\0', r'\0', r'abc', r'\n\t\"\\\xff', r'\x7f\x80', r'q\0\0r', r"it's"]
+STORED_LITERALS = [r'a\0b', r'a\x00b', r'\0zz', r'k\x00\x01\xfe7', r'ab\0', r'\0', r'abc', r'\n\t\"\\\xff', r'\x7f\x80', r'q\0\0r', r"it's",
+                   # bytes the emitted C spells as escapes, directly in front of digits (an escape must not absorb what follows)
+                   r'\x011', r'\x077z', r'\0012', r'\x1f07', r'\n9\x018', r'\x7f7', r'\x80a1']
 
 
 def stored_literals(ctx):
